@@ -164,7 +164,7 @@ def run(ctx, canary=False):
 def replay_history(ctx, s, e, rng, paths):
     V = s["ord"]
     dom_order = V if rng.random() < 0.6 else list(reversed(V))
-    total = rng.choice([1.0, 10.0, 3.5, 250.0])
+    total = rng.choice([1.0, 10.0, 3.5, 250.0, 2e-9])
     order = list(V)
     rng.shuffle(order)
     info = {"structure": s["name"], "cliques": s["cliques"], "sizes": s["sz"], "dom_order": dom_order, "elim_order": order,
@@ -172,12 +172,44 @@ def replay_history(ctx, s, e, rng, paths):
     ctx.case((s["name"], tuple(dom_order), tuple(order), total, e["cached0"], json.dumps(info["calls"], sort_keys=True)),
              nontrivial=any(len(h["call"].get("seq", [])) >= 2 or h["call"]["k"] != "project" for h in e["hist"]))
     Z = e["Z"]
+    aged = rng.random() < 0.4
+    info["earlier_life_with_other_parameters"] = aged
+    # the same joint written with potentials that each span far more than the range of exp() (+c x_a on one clique, -c x_a on a
+    # neighbour): what long mirror-descent runs drift into. krondot is documented not to survive this and is skipped then.
+    spread = rng.choice([0.0, 0.0, 0.0, 900.0]) if not any(h["call"]["k"] == "krondot" for h in e["hist"]) else 0.0
+    info["cancelling_spread"] = spread
     try:
         m = build_model(s, order, dom_order, total)
-        m.potentials = potentials(m, s, set(), [0.3 * k for k in range(len(s["pots"]))])
+        if aged:
+            # the same object first lives with OTHER parameters (weights reversed, another total) and serves the same calls;
+            # it is then re-parameterised the way the estimators do it (potentials, total and - if cached - marginals together)
+            s_old = dict(s, pots=[dict(p_, w=list(reversed(p_["w"]))) for p_ in s["pots"]])
+            m.total = total * 1.5 + 1.0
+            m.potentials = potentials(m, s_old, set(), [0.1 * k for k in range(len(s["pots"]))])
+            if e["cached0"]:
+                m.marginals = m.belief_propagation(m.potentials)
+            for h in e["hist"]:
+                c = h["call"]
+                if c["k"] == "project":
+                    m.project(tuple(c["seq"])); m.project(list(c["seq"]))
+                elif c["k"] == "many":
+                    m.calculate_many_marginals([tuple(q) for q in c["list"]])
+                    if not e["cached0"] and hasattr(m, "marginals"):
+                        del m.marginals
+                elif c["k"] == "krondot":
+                    m.krondot([kmat(c["kinds"][a], s["sz"][a]) for a in m.domain.attrs])
+                elif c["k"] == "datavector":
+                    m.datavector()
+            m.total = total
+        newpot = potentials(m, s, set(), [0.3 * k for k in range(len(s["pots"]))], 1.0, spread)
         shiftsum = sum(0.3 * k for k in range(len(s["pots"])))
         if e["cached0"]:
-            m.marginals = m.belief_propagation(m.potentials)
+            # the estimators' idiom (inference.py: mu = bp(theta); model.potentials = theta; model.marginals = mu)
+            mu = m.belief_propagation(newpot)
+            m.potentials = newpot
+            m.marginals = mu
+        else:
+            m.potentials = newpot
     except Exception as ex:
         ctx.violation("model construction raised %r" % ex, info, {"kind": "crash"})
         return
@@ -189,7 +221,7 @@ def replay_history(ctx, s, e, rng, paths):
             return
         want = np.array(ints, dtype=float) * total / Z
         got = np.asarray(f.values, dtype=float).reshape(-1)
-        if got.shape != want.shape or not np.all(np.isfinite(got)) or not np.allclose(got, want, rtol=1e-9, atol=1e-12 * total):
+        if got.shape != want.shape or not np.all(np.isfinite(got)) or not np.allclose(got, want, rtol=1e-9 if not spread else 1e-7, atol=1e-12 * total):
             bad.append("%s = %s, joint marginal %s" % (label, got.tolist(), want.tolist()))
         elif abs(got.sum() - total) > 1e-9 * total:
             bad.append("%s sums to %r, total %r" % (label, got.sum(), total))
